@@ -161,6 +161,11 @@ func mkReqC(carrier, method, ctype, rawq, body string, hdr [][2]string) (r *http
 			k /= 2
 		}
 		r.Body = io.NopCloser(io.MultiReader(strings.NewReader(body[:k]), bindFailReader{}))
+	case "preform":
+		// NOT a carrier of the protocol: an earlier handler has left a parsed form on the request (r.Form / r.PostForm are
+		// public fields; after a method override they hold the body of the ORIGINAL request).  Used by an oracle of runBind.
+		r.Form = url.Values{"v": {"LEAKED-FORM"}, "q": {"LEAKED-FORM"}}
+		r.PostForm = url.Values{"v": {"LEAKED-POSTFORM"}}
 	case "newreq":
 		nr, err := http.NewRequest("POST", "http://example.test/p", bytes.NewReader([]byte(body)))
 		if err != nil {
@@ -208,6 +213,23 @@ func mkReqC(carrier, method, ctype, rawq, body string, hdr [][2]string) (r *http
 type bindFailReader struct{}
 
 func (bindFailReader) Read([]byte) (int, error) { return 0, io.ErrUnexpectedEOF }
+
+// bindPlainKeys: no two keys of the query that are equal up to case, no nested keys (`v.x`, `v[0]`)
+func bindPlainKeys(rawq string) bool {
+	vals, err := url.ParseQuery(rawq)
+	if err != nil {
+		return false
+	}
+	seen := map[string]bool{}
+	for k := range vals {
+		lk := strings.ToLower(k)
+		if seen[lk] || strings.ContainsAny(k, ".[]") {
+			return false
+		}
+		seen[lk] = true
+	}
+	return true
+}
 
 // carrierOK: may this bind travel by this carrier (decided from the inputs and net/http only, never from rux)
 func carrierOK(carrier, api, method, ctype, rawq, body string, hdr [][2]string) bool {
@@ -510,6 +532,16 @@ func runBind(carrier string, f []string) (ans string, oracle []string) {
 					oracle = append(oracle, fmt.Sprintf("C18 malformed input: a url-encoded body that breaks off (%s, %d bytes, method %q, Content-Type %q) bound through %s answers %q", cut, len(body), method, ctype, ap, a1))
 				}
 			}
+		}
+		setValidator(val)
+	}
+	// methods without a body bind the QUERY STRING of the URL: a parsed form that an earlier handler left on the request
+	// (r.Form, r.PostForm) is not a source.  (Skipped when keys differ in case only or are nested: formam's answer then
+	// depends on map order.)
+	if !isBodyMethod && carrier == "rd" && (api == "auto" || api == "pkgbind" || api == "ctxbind" || api == "ctxauto" || api == "query.bind") && bindPlainKeys(rawq) {
+		setValidator(val)
+		if a2 := callBind("preform", api, method, ctype, rawq, body, hdr, &bT{}); a2 != ans {
+			oracle = append(oracle, fmt.Sprintf("C18 source: %s on method %q with the query %q answers %q, and %q when the request carries a parsed form from an earlier handler", api, method, rawq, ans, a2))
 		}
 		setValidator(val)
 	}
